@@ -48,6 +48,39 @@ pub struct CliCase {
     pub entropy: u128,
     /// run a second process with this entropy and demand identical results (C05 across processes)
     pub twin_entropy: Option<u128>,
+    /// bounded sweep: ignore `plan` and run once per single fault of `single_fault_plans()`
+    pub sweep: bool,
+}
+
+/// every single fault the shim can inject at the first few calls of each kind (the CLI makes at most
+/// 3 opens, a handful of reads and writes): the space a sweep case enumerates completely
+pub fn single_fault_plans() -> Vec<String> {
+    let mut v = Vec::new();
+    for n in 0..3 {
+        for e in [4, 5, 13, 24, 2, 28, 30] {
+            v.push(format!("open:{n}:{e}"));
+        }
+    }
+    for n in 0..4 {
+        for e in [4, 5, 11, 9] {
+            v.push(format!("read:{n}:{e}"));
+        }
+        for k in [1, 3] {
+            v.push(format!("read:{n}:short={k}"));
+        }
+    }
+    for n in 0..3 {
+        for e in [4, 28, 5, 32] {
+            v.push(format!("write:{n}:{e}"));
+        }
+        for k in [1, 17] {
+            v.push(format!("write:{n}:short={k}"));
+        }
+    }
+    for e in [5, 38, 13] {
+        v.push(format!("statx:*:{e}"));
+    }
+    v
 }
 
 impl CliCase {
@@ -81,6 +114,9 @@ impl CliCase {
         o.put("entropy", J::s(format!("{:032x}", self.entropy)));
         if let Some(t) = self.twin_entropy {
             o.put("twin_entropy", J::s(format!("{:032x}", t)));
+        }
+        if self.sweep {
+            o.put("single_fault_sweep", J::Bool(true));
         }
         o
     }
@@ -122,6 +158,7 @@ impl CliCase {
                 Ok(s) => Some(u128::from_str_radix(&s, 16).map_err(|e| e.to_string())?),
                 Err(_) => None,
             },
+            sweep: matches!(j.get("single_fault_sweep"), Some(J::Bool(true))),
         })
     }
 }
